@@ -96,3 +96,12 @@ Example scope_instance :
       = [None; Some t1; Some t2] /\
     find_module (3, Some 3) t1 = Some ch /\ find_module (3, Some 3) t2 = Some ch.
 Proof. eexists. eexists. eexists. split; [vm_compute; reflexivity|]. split; vm_compute; reflexivity. Qed.
+
+(* an injective renaming, and the rebuilt-copy equation evaluated on the sample circuit *)
+Example rebuilt_instance :
+  injective (fun x => x + 7) /\ injective (fun x => 2 * x) /\
+  snd (ref_hier None (ren_node (fun x => x + 7) (fun x => 2 * x) top) true None []) =
+  map (ren_chunk (fun x => x + 7)) (snd (ref_hier None top true None [])).
+Proof.
+  split; [intros x y H; lia|]. split; [intros x y H; lia|]. vm_compute. reflexivity.
+Qed.
